@@ -194,6 +194,22 @@ func checkC16Tree(t *Toks) string {
 				return fail("other.outputkey", fmt.Sprintf("leaf=%d/%d", i, n))
 			}
 		}
+		// output-key arguments of another length (a taproot output key is exactly 32 bytes):
+		// the same integer zero-padded or without its leading zero bytes, a zero suffix,
+		// unrelated 31 and 33 bytes, empty
+		lens := [][]byte{append([]byte{0}, prog...), append(make([]byte, 8), prog...),
+			append(append([]byte{}, prog...), 0), r.Bytes(31), r.Bytes(33), {}}
+		if tr := bytes.TrimLeft(prog, "\x00"); len(tr) != 32 {
+			lens = append(lens, tr)
+		}
+		for _, pp := range lens {
+			if taproot.VerifyTaprootLeafCommitment(&cb, pp, ls[i].script) == nil {
+				return fail("other.outputkey.length", fmt.Sprintf("len=%d/leaf=%d/%d", len(pp), i, n))
+			}
+			if bsl, err := cb.ToBytes(); err == nil && tapVerifies(bsl, pp, ls[i].script) {
+				return fail("other.outputkey.length", fmt.Sprintf("roundtrip/len=%d/leaf=%d/%d", len(pp), i, n))
+			}
+		}
 		// other internal key in the block
 		c4 := cb
 		c4.InternalKey = otherKey
